@@ -15,6 +15,8 @@ open Qmc Qmc.Proto
 structure St where
   c : FastOps
   s : Slots
+  /-- the last line was rejected by the model (`new_from_ops` on a malformed list: `panic`) -/
+  bad : Bool := false
 
 def optNat : Option Nat → String
   | some x => toString x
@@ -146,6 +148,19 @@ def stepSt (st : St) (toks : List String) : St :=
     let s := parseSlots slots
     let l := occupiedList s
     { c := FastOps.newFromOps (parseNat nvars) l, s := if l.isEmpty then [] else s }
+  | ["installx", _, nvars, lst, _] =>
+    -- explicit (possibly malformed) list in LIST order: `p@op+p@op…` or `-`
+    let l : List (Nat × Op) := if lst == "-" then [] else
+      (lst.splitOn "+").filterMap fun tok =>
+        match tok.splitOn "@" with
+        | [p, o] => (parseOp o).map fun op => (parseNat p, op)
+        | _ => none
+    match FastOps.newFromOpsChecked (parseNat nvars) l with
+    | some c =>
+      let len := if l.isEmpty then 0 else (l.map (·.1)).foldl max 0 + 1
+      let s0 : Slots := List.replicate len none
+      { c := c, s := l.foldl (fun s po => s.set po.1 (some po.2)) s0 }
+    | none => { c := FastOps.new 0 none, s := [], bad := true }
   | ["cutoff", _, k, _] =>
     let m : Mut Nat := .setCutoff (parseNat k)
     { c := applyC st.c m, s := applyA nv nb st.s m }
@@ -201,7 +216,7 @@ partial def loop (h : IO.FS.Stream) (st : St) : IO Unit := do
   let toks := tokens line
   let st' := stepSt st toks
   let qs := match toks.getLast? with | some q => parseQ q | none => []
-  IO.println (describe st' qs)
+  IO.println (if st'.bad then "panic" else describe st' qs)
   loop h st'
 
 def main : IO Unit := do
